@@ -1,7 +1,10 @@
 use super::turn::Turn;
 use crate::model::unit::{Time, TimeUnit};
 use serde::{Deserialize, Serialize};
+#[cfg(not(all(kani, feature = "verif-models")))]
 use std::collections::HashMap;
+#[cfg(all(kani, feature = "verif-models"))]
+use crate::util::verif_collections::HashMap;
 
 #[derive(Serialize, Deserialize)]
 #[serde(rename_all = "snake_case", tag = "type")]
